@@ -1,13 +1,260 @@
 package sim
 
+// The one test binary. Selected by VERIF_* environment variables; run by
+// /verif/check. Without VERIF_MODE only the smoke test runs.
+
 import (
+	"bufio"
 	"encoding/json"
 	"fmt"
 	"os"
+	"path/filepath"
+	"runtime"
+	"sync"
+	"strconv"
+	"strings"
 	"testing"
+	"time"
 )
 
+func envU(name string, def uint64) uint64 {
+	if v := os.Getenv(name); v != "" {
+		n, err := strconv.ParseUint(v, 10, 64)
+		if err != nil {
+			panic(name + ": " + err.Error())
+		}
+		return n
+	}
+	return def
+}
+
+type batchOut struct {
+	w   *bufio.Writer
+	f   *os.File
+	dir string
+}
+
+func openOut() *batchOut {
+	path := os.Getenv("VERIF_OUT")
+	if path == "" {
+		return &batchOut{w: bufio.NewWriter(os.Stdout)}
+	}
+	f, err := os.Create(path)
+	if err != nil {
+		panic(err)
+	}
+	return &batchOut{w: bufio.NewWriter(f), f: f, dir: filepath.Dir(path)}
+}
+
+func (o *batchOut) emit(v interface{}) {
+	b, err := json.Marshal(v)
+	if err != nil {
+		panic(err)
+	}
+	o.w.Write(b)
+	o.w.WriteByte('\n')
+	o.w.Flush()
+}
+
+func (o *batchOut) close() {
+	o.w.Flush()
+	if o.f != nil {
+		o.f.Close()
+	}
+}
+
+type outLine struct {
+	*RunResult
+	PlanFile string `json:"planFile,omitempty"`
+	Sample   *Plan  `json:"sample,omitempty"`
+	Child    string `json:"child,omitempty"`
+}
+
+func savePlan(o *batchOut, plan *Plan, tag string) string {
+	if o.dir == "" {
+		return ""
+	}
+	path := filepath.Join(o.dir, fmt.Sprintf("plan-%s-%d-%d%s.json", plan.Check, plan.Seed, plan.Index, tag))
+	if err := plan.Save(path); err != nil {
+		panic(err)
+	}
+	return path
+}
+
+func TestEngine(t *testing.T) {
+	mode := os.Getenv("VERIF_MODE")
+	if mode == "" {
+		t.Skip("VERIF_MODE not set")
+	}
+	check := os.Getenv("VERIF_CHECK")
+	def := Checks[check]
+	if def == nil && mode != "replay" && mode != "minimise" {
+		t.Fatalf("unknown check %q", check)
+	}
+	seed := envU("VERIF_SEED", 1)
+	tier := os.Getenv("VERIF_TIER")
+	from, to := envU("VERIF_FROM", 0), envU("VERIF_TO", 10)
+	deadline := time.Unix(int64(envU("VERIF_DEADLINE", uint64(time.Now().Add(24*time.Hour).Unix()))), 0)
+	startWatchdog()
+	switch mode {
+	case "batch":
+		out := openOut()
+		defer out.close()
+		samples := 0
+		for i := from; i < to; i++ {
+			if time.Now().After(deadline) {
+				break
+			}
+			plan := def.Gen(seed, i, tier)
+			progress(fmt.Sprintf("%s seed=%d index=%d", check, seed, i))
+			res, _ := Execute(t, plan, def.Oracle, def.Final, false)
+			line := outLine{RunResult: res}
+			res.SeamKinds = nil
+			if len(res.Violations) > 0 || res.Infra != "" {
+				line.PlanFile = savePlan(out, plan, "")
+			} else if samples < 2 && res.NonTrivial {
+				samples++
+				line.Sample = plan
+			}
+			out.emit(line)
+		}
+	case "sweep":
+		out := openOut()
+		defer out.close()
+		for i := from; i < to; i++ {
+			if time.Now().After(deadline) {
+				break
+			}
+			runSweep(t, def, seed, i, tier, out, deadline)
+		}
+	case "replay":
+		plan, err := LoadPlan(os.Getenv("VERIF_PLAN"))
+		if err != nil {
+			t.Fatal(err)
+		}
+		def = Checks[plan.Check]
+		if def == nil {
+			t.Fatalf("unknown check %q in plan", plan.Check)
+		}
+		res, ex := Execute(t, plan, def.Oracle, def.Final, true)
+		if os.Getenv("VERIF_TRACE") != "" && ex != nil {
+			for _, l := range ex.Sim.EvLines {
+				fmt.Println(l)
+			}
+		}
+		out := openOut()
+		defer out.close()
+		res.SeamKinds = nil
+		out.emit(outLine{RunResult: res})
+	case "minimise":
+		plan, err := LoadPlan(os.Getenv("VERIF_PLAN"))
+		if err != nil {
+			t.Fatal(err)
+		}
+		def = Checks[plan.Check]
+		min, sig, runs := Minimise(t, def, plan, os.Getenv("VERIF_CLASS"), deadline)
+		min.Expect = sig
+		dst := os.Getenv("VERIF_MIN_OUT")
+		if err := min.Save(dst); err != nil {
+			t.Fatal(err)
+		}
+		fmt.Printf("MINIMISED signature=%s runs=%d steps=%d file=%s\n", sig, runs, len(min.Steps), dst)
+	case "hashes":
+		// determinism self-test: print the event-log hash of every index
+		for i := from; i < to; i++ {
+			plan := def.Gen(seed, i, tier)
+			res, _ := Execute(t, plan, def.Oracle, def.Final, false)
+			sigs := []string{}
+			for _, v := range res.Violations {
+				sigs = append(sigs, v.Signature())
+			}
+			fmt.Printf("HASH %s %d %d %s %d %s %s\n", check, seed, i, res.EventHash, res.Events, strings.Join(sigs, ","), res.Infra)
+		}
+	default:
+		t.Fatalf("unknown mode %q", mode)
+	}
+}
+
+// runSweep executes one fault-free base history, then re-executes it once for
+// every placement of one fault on every seam call of every operation.
+func runSweep(t *testing.T, def *CheckDef, seed, index uint64, tier string, out *batchOut, deadline time.Time) {
+	base := def.SweepBase(seed, index, tier)
+	res, _ := Execute(t, base, def.Oracle, def.Final, false)
+	kinds := res.SeamKinds
+	res.SeamKinds = nil
+	line := outLine{RunResult: res, Child: "base"}
+	if len(res.Violations) > 0 || res.Infra != "" {
+		line.PlanFile = savePlan(out, base, "-base")
+		out.emit(line)
+		return
+	}
+	line.Sample = base
+	out.emit(line)
+	child := 0
+	for si := range kinds {
+		if base.Steps[si].Op == nil {
+			continue
+		}
+		for k, verb := range kinds[si] {
+			for _, f := range def.SweepKinds(base, si, verb) {
+				if time.Now().After(deadline) {
+					return
+				}
+				p := base.Clone()
+				f.K = k + 1
+				p.Steps[si].Faults = []FaultSpec{f}
+				p.Variant = "sweep"
+				child++
+				progress(fmt.Sprintf("%s seed=%d index=%d child=s%d.k%d.%s", def.ID, seed, index, si, k+1, f.Kind))
+				r, _ := Execute(t, p, def.Oracle, def.Final, false)
+				r.SeamKinds = nil
+				l := outLine{RunResult: r, Child: fmt.Sprintf("s%d.k%d.%s", si, k+1, f.Kind)}
+				if len(r.Violations) > 0 || r.Infra != "" {
+					l.PlanFile = savePlan(out, p, fmt.Sprintf("-s%d-k%d-%s", si, k+1, f.Kind))
+				}
+				out.emit(l)
+			}
+		}
+	}
+}
+
+// Watchdog: a run that makes no progress for 120 real seconds means the
+// bubble is wedged (a goroutine blocked in a way synctest cannot see). That is
+// harness trouble, never a violation: exit code 3.
+var (
+	wdMu   sync.Mutex
+	wdLast = time.Now()
+	wdWhat string
+)
+
+func progress(what string) {
+	wdMu.Lock()
+	wdLast, wdWhat = time.Now(), what
+	wdMu.Unlock()
+}
+
+func startWatchdog() {
+	go func() {
+		for {
+			time.Sleep(5 * time.Second)
+			wdMu.Lock()
+			idle, what := time.Since(wdLast), wdWhat
+			wdMu.Unlock()
+			if idle > 120*time.Second {
+				fmt.Fprintf(os.Stderr, "WATCHDOG: no progress for %v in %s\n", idle, what)
+				buf := make([]byte, 1<<20)
+				n := runtime.Stack(buf, true)
+				os.Stderr.Write(buf[:n])
+				os.Exit(3)
+			}
+		}
+	}()
+}
+
 func TestSmoke(t *testing.T) {
+	if os.Getenv("VERIF_MODE") != "" {
+		t.Skip()
+	}
 	w1 := 1
 	plan := &Plan{Check: "smoke", Backend: "secrets", Namespace: "ns1", Release: "rel", ClientTOs: 30,
 		Charts: []ChartSpec{
@@ -34,13 +281,12 @@ func TestSmoke(t *testing.T) {
 		},
 		Schedule: []uint32{3, 1, 4, 1, 5, 9, 2, 6},
 	}
-	if f := os.Getenv("VERIF_BACKEND"); f != "" {
-		plan.Backend = f
+	for _, be := range []string{"secrets", "configmaps", "memory"} {
+		p := plan.Clone()
+		p.Backend = be
+		res, _ := Execute(t, p, nil, nil, false)
+		if res.Infra != "" || !strings.Contains(res.Outcome, "uninstall=ok[] {}") {
+			t.Fatalf("%s: %+v", be, res)
+		}
 	}
-	res, ex := Execute(t, plan.Clone(), nil, nil, true)
-	for _, l := range ex.Sim.EvLines {
-		fmt.Println(l)
-	}
-	b, _ := json.MarshalIndent(res, "", " ")
-	fmt.Println(string(b))
 }
